@@ -5,6 +5,6 @@
 P=${1:-4}
 ls -d /verif/seeded/C*/ | xargs -P $P -I{} sh -c '
   d={}; p=$(basename $d | cut -d- -f1)
-  out=$(/verif/tools/try_mutant.sh $d/patch.diff $p 2>&1)
+  out=$(MUTANT_LINES=60 /verif/tools/try_mutant.sh $d/patch.diff $p 2>&1)
   if echo "$out" | grep -q "^VIOLATION property=$p"; then echo "detected $(basename $d)";
   else echo "MISSED   $(basename $d) :: $(echo "$out" | tail -2 | tr "\n" " " | cut -c1-200)"; fi'
